@@ -39,7 +39,10 @@ func checkPartialFlagMonotone(r *Run, ap *packages.Package) {
 						continue
 					}
 					fv, ok := info.Uses[sel.Sel].(*types.Var)
-					if !ok || !fv.IsField() || fv.Name() != "partial" {
+					if !ok || !fv.IsField() || namedName(info.TypeOf(sel.X)) != "reachCursor" {
+						continue
+					}
+					if b, isBasic := fv.Type().Underlying().(*types.Basic); !isBasic || b.Kind() != types.Bool {
 						continue
 					}
 					n++
@@ -56,7 +59,7 @@ func checkPartialFlagMonotone(r *Run, ap *packages.Package) {
 		}
 	}
 	if n < 2 {
-		r.Undecide("C15-R6: fewer than two writes of the cursor's partial flag found (%d)", n)
+		r.Undecide("C15-R6: fewer than two writes of a boolean mark of reachCursor found (%d)", n)
 	}
 }
 
